@@ -28,7 +28,9 @@ US = 1000000
 DAY = 86400 * US
 TIMES = [(0, 0, 0), (0, 4, 59), (0, 5, 1), (12, 0, 0), (23, 59, 59)]
 NODE_ID = {'root': 1, 'A': 2, 'B': 3, 'C': 4, 'D': 5, 'E': 6}
-PINNED = {}
+# normalised-ast fingerprints of the hand-modelled functions (tree with the
+# repair 399dc9a); a difference escalates the run to thorough depth
+PINNED = {'_delay': 'b8e873894cb30061', 'defer': 'ea6f8245053d2131', 'periodics': '25a2cdba26718331', 'complete': 'fb12116b841dc480', 'schedule': '2f9485953a0b75f3', 'rule_10': '78f5a4901f01e365'}
 
 
 def build_specs():
